@@ -3,6 +3,7 @@ pub mod c02;
 pub mod c03;
 pub mod c05;
 pub mod c06;
+pub mod c08;
 pub mod c09;
 pub mod c10;
 pub mod c12;
@@ -23,6 +24,7 @@ pub fn run_property(ctx: &mut Ctx) -> bool {
         "C03" => c03::run(ctx),
         "C05" => c05::run(ctx),
         "C06" => c06::run(ctx),
+        "C08" => c08::run(ctx),
         "C09" => c09::run(ctx),
         "C10" => c10::run(ctx),
         "C12" => c12::run(ctx),
@@ -77,6 +79,7 @@ pub fn replay(body: &Value) -> i32 {
         "udp" => replay_part(&c16::UdpPart, body),
         "unack" => replay_part(&c18::C18Part, body),
         "cancel" => replay_part(&c10::C10Part, body),
+        "naks" => replay_part(&c08::C08Part, body),
         "suspend" => replay_part(&c19::C19Part, body),
         "roundtrip" => replay_part(&c05::RtPart, body),
         "checksum" => replay_part(&c14::CkPart, body),
